@@ -33,6 +33,13 @@ where
             while full.len() < rows * 32 { full.push((k * 7 + i) % (A::KK - 1)); k += 1; }
             let fs: StripedSequence<A, U32> = Pipeline::<A, _>::generic().stripe(A::syms(&full));
             StripedSequence::new(fs.into_matrix(), r.len()).expect("prefix view")
+        } else if how == 2 && i % 2 == 0 && !r.is_empty() {
+            // a caller-built matrix TALLER than strictly necessary (StripedSequence::new accepts any matrix holding at
+            // least `len` cells): position j lives in row j mod R', column j div R' of that matrix
+            let rows = (r.len() + 31) / 32 + 1 + i % 3;
+            let mut mx = lightmotif::dense::DenseMatrix::<A::Symbol, U32>::new(rows);
+            for (j, &x) in r.iter().enumerate() { mx[j % rows][j / rows] = A::sym(x); }
+            StripedSequence::new(mx, r.len()).expect("matrix with spare rows")
         } else {
             Pipeline::<A, _>::generic().stripe(A::syms(r))
         };
